@@ -1,0 +1,6 @@
+// Package atomic is a drop-in replacement for the subset of package
+// sync/atomic used by this repository. It is only functional when built
+// with the "verif" build tag, in which case every atomic operation is
+// reported to the hooks of package verifsync before it is performed,
+// allowing a model checker to interleave threads between them.
+package atomic
